@@ -48,8 +48,8 @@ def run_c02(out, tier, seed, replay):
     pidx = {p["name"]: i + 1 for i, p in enumerate(sel)}
     gen, by = semlib.enumerate_inputs(sel, work, "quick")
     out.add_tlc(gen, "SemGen (input databases)")
-    ninputs = 6 if tier == "quick" else 40
-    nseeds = 2 if tier == "quick" else 12
+    ninputs = 6 if tier == "quick" else 12
+    nseeds = 2 if tier == "quick" else 6
     cases, meta = [], {}
     cid = 0
     for p in sel:
@@ -66,7 +66,7 @@ def run_c02(out, tier, seed, replay):
                         meta[cid] = dict(case=case, inputs=c["inputs"], lm=c["lm"], prog=p)
     # breadth family: many more input databases per program, one schedule each (faults of the parallel code path that do
     # not depend on the schedule - index types, merge order - need the right database rather than the right interleaving)
-    nbroad = 40 if tier == "quick" else 300
+    nbroad = 40 if tier == "quick" else 120
     nb = 0
     for p in sel:
         if (p["name"], "par") not in mods:
